@@ -32,7 +32,7 @@ type foreignExc struct {
 	msg string
 }
 
-func (e *foreignExc) Error() string  { return e.msg }
+func (e *foreignExc) Error() string { return e.msg }
 func (e *foreignExc) TypeId() int32 { return e.id }
 
 type foreignEmbed struct {
